@@ -242,50 +242,19 @@ func (os *OutputStream) GetNext(ctx context.Context, lastseen robust.Id) []Messa
 	// find a more recent message.
 
 	os.messagesMu.RLock()
-	current, ok := os.getUnlocked(uint64(lastseen.Id))
-	if ok && current.NextID < math.MaxUint64 {
-		next, okNext := os.getUnlocked(current.NextID)
-		if okNext {
-			os.messagesMu.RUnlock()
-			return next.Messages
-		}
-		// NextID points to a deleted message, fall back to binary search.
-		ok = false
-	}
-
-	if !ok {
-		// Anything _newer_ than lastseen, i.e. the interval [lastseen.Id+1, ∞)
-		var key [8]byte
-		binary.BigEndian.PutUint64(key[:], uint64(lastseen.Id)+1)
-		i := os.db.NewIterator(&util.Range{
-			Start: key[:],
-			Limit: nil,
-		}, nil)
-		defer i.Release()
-		if i.First() {
-			mb := unmarshalMessageBatch(i.Value())
-			os.messagesMu.RUnlock()
-			return mb.Messages
-		}
-
-		// There is no message which is more recent than lastseen, so just take
-		// the last message and fallthrough into the code path that waits for
-		// newer messages.
-		i = os.db.NewIterator(nil, nil)
-		defer i.Release()
-		if !i.Last() {
-			log.Panicf("outputstream LevelDB is empty, which is a BUG\n")
-		}
-
-		current = unmarshalMessageBatch(i.Value())
-	}
+	next, ok := os.nextUnlocked(uint64(lastseen.Id))
 	os.messagesMu.RUnlock()
+	if ok {
+		return next.Messages
+	}
 
-	// Wait until a new message appears.
+	// Wait until a new message appears. The lookup is repeated from scratch
+	// after every wake-up: the message which was the most recent one when we
+	// started waiting may have been deleted in the meantime, and a message
+	// which was added in the meantime is not necessarily newer than lastseen.
 	os.messagesMu.Lock()
 	for {
-		current, _ = os.getUnlocked(uint64(current.Messages[0].Id.Id))
-		next, ok := os.getUnlocked(current.NextID)
+		next, ok := os.nextUnlocked(uint64(lastseen.Id))
 		if ok {
 			os.messagesMu.Unlock()
 			return next.Messages
@@ -298,6 +267,37 @@ func (os *OutputStream) GetNext(ctx context.Context, lastseen robust.Id) []Messa
 		}
 		os.newMessage.Wait()
 	}
+}
+
+// nextUnlocked returns the message with the smallest id greater than lastseen,
+// if any. messagesMu must be held (for reading or writing).
+func (os *OutputStream) nextUnlocked(lastseen uint64) (*messageBatch, bool) {
+	current, ok := os.getUnlocked(lastseen)
+	if ok && current.NextID < math.MaxUint64 {
+		next, okNext := os.getUnlocked(current.NextID)
+		if okNext {
+			return next, true
+		}
+		// NextID points to a deleted message, fall back to binary search.
+		ok = false
+	}
+	if ok {
+		// lastseen is the most recent message.
+		return nil, false
+	}
+
+	// Anything _newer_ than lastseen, i.e. the interval [lastseen+1, ∞)
+	var key [8]byte
+	binary.BigEndian.PutUint64(key[:], lastseen+1)
+	i := os.db.NewIterator(&util.Range{
+		Start: key[:],
+		Limit: nil,
+	}, nil)
+	defer i.Release()
+	if !i.First() {
+		return nil, false
+	}
+	return unmarshalMessageBatch(i.Value()), true
 }
 
 // InterruptGetNext interrupts any running GetNext() calls so that they return
